@@ -407,6 +407,12 @@ def directed_specs(R):
         out.append(('rule', {'freq': R.DAILY, 'dtstart': st, 'byhour': [6, 18], 'bysetpos': -1, 'count': count}))
     out.append(('rule', {'freq': R.MONTHLY, 'dtstart': st, 'byweekday': [R.FR], 'bysetpos': -1, 'until': st + D.timedelta(days=400)}))
     out.append(('rule', {'freq': R.DAILY, 'dtstart': st, 'count': 0}))
+    # rules that end before COUNT is reached: the calendar ends, nothing can match, COUNT is negative
+    out.append(('rule', {'freq': R.DAILY, 'dtstart': D.datetime(9999, 12, 30, 9), 'count': 5}))
+    out.append(('rule', {'freq': R.MONTHLY, 'dtstart': D.datetime(9999, 10, 31, 9), 'count': 12, 'bymonthday': [31]}))
+    out.append(('rule', {'freq': R.YEARLY, 'dtstart': st, 'bymonth': 2, 'bymonthday': 30, 'count': 3}))
+    out.append(('rule', {'freq': R.DAILY, 'dtstart': st, 'count': -2}))
+    out.append(('set', [{'freq': R.DAILY, 'dtstart': D.datetime(9999, 12, 29, 9), 'count': 6}], [D.datetime(9999, 12, 31, 12)], [], []))
     out.append(('rule', {'freq': R.YEARLY, 'dtstart': st, 'bymonth': 2, 'bymonthday': 30, 'until': st + D.timedelta(days=3000)}))
     out.append(('set', [{'freq': R.DAILY, 'dtstart': st, 'count': 10}, {'freq': R.DAILY, 'dtstart': st, 'count': 10}], [st, st + D.timedelta(days=30)], [], []))
     out.append(('set', [{'freq': R.DAILY, 'dtstart': st, 'count': 5}], [], [{'freq': R.DAILY, 'dtstart': st, 'count': 5}], []))
